@@ -110,6 +110,8 @@ partial def reOfJson (j : Json) : Re :=
     | [] => .eps
   | "eol" => .eol
   | "bol" => .bol
+  | "meol" => .meol
+  | "mbol" => .mbol
   | _ => .eps
 
 def intsOf (j : Json) (k : String) : List Int := (getArr j k).filterMap intOfJson
